@@ -18,7 +18,7 @@ T = {
          "Lean 4 theorem via the store invariant (induction over reachable coroutine states) + exact-mirror correspondence + brute-force oracle"),
  "C03": ("Full: leaves true / derived entailed / top forbids root / equal ids equal subtrees / id implies repeated occurrence (Lean theorems over the model of build_derivation_tree on an invariant-satisfying store); and the exact characterisation of shared ids (C03_shared_iff: a derived node is marked exactly when two distinct cause edges of the reachable DAG lead to it). Tie: exact tree equality with the model; oracle: independent reconstruction from the store snapshot.", TB_SOLVER,
          "Lean 4 theorems (store invariant, functional tree relation, counting argument) + exact-mirror correspondence + semantic re-derivation oracle"),
- "C06": ("Full: Lean theorem C06_store_valid for every reachable state of the coroutine model (any world, any consistent answers, any strategy, any end of the run). The theorem is proved for every lawful version set and, separately, for Range over ANY linear order incl. the discrete u32 / SemanticVersion (where Range is not lawful: 1<v<2 is a non-empty set without members), by pulling it back along the embedding of Range V into Range (V x_lex Q) - the solver commutes with injective version-set homomorphisms (HomSolver.lean, RangeHom.lean, RangeAnyOrder.lean). Tie: exact mirror of the store snapshots through the cfg-guarded hook; oracle: every stored clause against all solutions of the tiny registry.", TB_SOLVER,
+ "C06": ("Full: Lean theorem C06_store_valid for every reachable state of the coroutine model (any world, any consistent answers, any strategy, any end of the run). The theorem is proved for every lawful version set and, separately, for Range over ANY linear order incl. the discrete u32 / SemanticVersion (where Range is not lawful: 1<v<2 is a non-empty set without members), by pulling it back along the embedding of Range V into Range (V x_lex Q) - the solver commutes with injective version-set homomorphisms (HomSolver.lean, RangeHom.lean, RangeAnyOrder.lean). The storage of an incompatibility's terms (SmallMap with its four variants) is modelled exactly and proved to refine the association list the solver model uses (C06_smallmap_*). Tie: exact mirror of the store snapshots through the cfg-guarded hook; SmallMap scripts (exhaustive short + random) through a hook against the model; oracle: every stored clause against all solutions of the tiny registry, a BTreeMap for the scripts.", TB_SOLVER,
          "Lean 4 theorem (invariant by induction over operations) + exact-mirror correspondence of store snapshots + brute-force oracle"),
  "C10": ("Full: every clause of C10 is a Lean theorem about the model of range.rs for every linear order V (pointwise set laws, canonical results, is_disjoint/subset_of agreement; == iff same points over dense unbounded orders). Tie: exhaustive small-scope equality of every operation.", TB_PURE,
          "Lean 4 theorems (fun_induction over the sweeps) + exhaustive small-scope model/implementation equality"),
@@ -30,7 +30,7 @@ T = {
          "Lean 4 theorems over the coroutine + exhaustive per-case fault enumeration mirrored by the model"),
  "C15_old": ("Full except the Display clause (open, listed in evidence.open_statements): contains_many, simplify, bounding_range, as_singleton, from_range_bounds, is_empty, iter are Lean theorems for every linear order; Display is covered by exhaustive correspondence and a read-back oracle only.", TB_PURE,
          "Lean 4 theorems (cursor specification by fun_induction) + exhaustive small-scope model/implementation equality"),
- "C16": ("Full: cmp is a total order consistent with == on all segment lists (Lean theorems, any linear order); hash coherence is the structural fact that SmallVec hashes its slice. Tie: all pairs over 3 bound values, all triples over 2 (quick) / 3 (thorough).", TB_PURE + " std Hash for Bound/[T] trusted.",
+ "C16": ("Full: cmp is a total order consistent with == on all segment lists (Lean theorems, any linear order); hash coherence: Range's storage SmallVec is modelled variant by variant (Empty/One/Two/Flexible) and proved to compare and hash by its slice only, for every history of push/pop/clear (C16_hash_independent_of_history). Tie: all pairs over 3 bound values incl. each set rebuilt through six other operation paths (representation independence), all triples over 2 (quick) / 3 (thorough); SmallVec scripts (all of length <= 6 / 8 over push,pop,clear + random) through a cfg-guarded hook against the model, with a recording Hasher.", TB_PURE + " std Hash for Bound / u32 slices trusted.",
          "Lean 4 theorems (lexicographic-order lifting) + exhaustive small-scope model/implementation equality"),
 }
 def chk(pid, text, note, tech):
@@ -46,7 +46,7 @@ if os.path.exists(extra):
 props = [json.loads(l)["id"] for l in open(os.path.join(V, "properties.jsonl"))]
 checks = [chk(p, *T[p]) for p in props if T.get(p)]
 claimed = {c["property_id"] for c in checks}
-hook_commits = ["569271a", "fe50b71"]
+hook_commits = ["569271a", "fe50b71", "0ff0dd6"]
 m = {"version": 1, "setup_cmd": "./setup.sh",
  "hooks": {"guard": "pubgrub_verif",
            "enable": "RUSTFLAGS='--cfg pubgrub_verif' (set in /verif/harness/.cargo/config.toml; the harness path-depends on /repo)",
